@@ -67,8 +67,8 @@ type c19env struct {
 	fresh map[string]string // result set -> last values line seen since its last change ("" = collected, line unknown)
 	isFr  map[string]bool
 	// outcome statistics
-	gaveUp                                           bool
-	nUpd, nRead, nAvg, nLoop, maxN, nFinish, nClient int
+	gaveUp                                                     bool
+	nUpd, nRead, nAvg, nLoop, maxN, nFinish, nClient, nRunTest int
 }
 
 func c19bits(x float64) string {
@@ -800,6 +800,8 @@ func c19run(res *c19result, mu *sync.Mutex) {
 			} else {
 				emit("ok")
 			}
+		case tk[1] == "runtest" && len(tk) == 8:
+			emit(e.runTest(tk, fail))
 		case tk[1] == "mupd" && len(tk) == 5:
 			x, ok := c19parseBits(tk[3])
 			host, err := strconv.Atoi(tk[4])
@@ -1074,7 +1076,7 @@ func c19run(res *c19result, mu *sync.Mutex) {
 		return ">16"
 	}
 	mu.Lock()
-	res.outcome = fmt.Sprintf("sets=%d buckets=%d maxn=%s reads=%s avg=%d loop=%d finish=%d client=%s", len(e.stats), nb, bucketN(e.maxN), bucketN(e.nRead), e.nAvg, e.nLoop, e.nFinish, bucketN(e.nClient))
+	res.outcome = fmt.Sprintf("sets=%d buckets=%d maxn=%s reads=%s avg=%d loop=%d finish=%d client=%s runtest=%d", len(e.stats), nb, bucketN(e.maxN), bucketN(e.nRead), e.nAvg, e.nLoop, e.nFinish, bucketN(e.nClient), e.nRunTest)
 	mu.Unlock()
 }
 
@@ -1811,6 +1813,74 @@ func c19genAll(c *h.Ctx, yield func(*h.Case)) {
 		yield(g.cs)
 	}
 
+	// ---- a whole run through the driver: simul.RunTest over a platform whose processes write their measures
+	// and exit (c19runtest.go).  What RunTest hands over must be complete.
+	runtest := func(nb, nconn, perConn int, k int) {
+		var groups []string
+		for b := 0; b < nb; b++ {
+			var rules []string
+			for q := 0; q < 1+r.Intn(3); q++ {
+				lo := r.Intn(12)
+				rules = append(rules, fmt.Sprintf("%d:%d", lo, lo+r.Intn(8)))
+			}
+			groups = append(groups, c19hexRules(rules))
+		}
+		names := []string{c19names[r.Intn(7)], c19names[r.Intn(7)]}
+		var parts []string
+		total := 0
+		for q := 0; q < nconn; q++ {
+			var recs []string
+			n := perConn
+			if perConn < 0 {
+				n = r.Intn(-perConn)
+			}
+			for j := 0; j < n; j++ {
+				recs = append(recs, fmt.Sprintf("%s/%s/%d", names[r.Intn(2)], bitsOf(g.value(k)), g.host()))
+			}
+			if r.Intn(2) == 0 {
+				recs = append(recs, "end/0000000000000000/-1")
+			}
+			total += n
+			parts = append(parts, c19join(recs, ","))
+		}
+		g.op("runtest g %d %d %d %s %s", 1+r.Intn(64), 2+r.Intn(8), 1+r.Intn(4), c19join(groups, ";"), strings.Join(parts, ";"))
+		c.Count("op=runtest")
+		switch {
+		case total == 0:
+			c.Count("runtest-records=0")
+		case total <= 10:
+			c.Count("runtest-records=1-10")
+		case total <= 100:
+			c.Count("runtest-records=11-100")
+		default:
+			c.Count("runtest-records>100")
+		}
+		sets := []string{"g"}
+		for b := 0; b < nb; b++ {
+			sets = append(sets, fmt.Sprintf("gb%d", b))
+		}
+		first := r.Intn(2) == 0
+		for _, sn := range sets {
+			if first {
+				g.op("header %s", sn)
+			}
+			g.op("values %s", sn)
+			g.accAll(sn, names)
+		}
+	}
+	start("corpus-runtest-measures-in-flight") // RunTest returned while the monitor was still reading (repaired by /repo 3ad3555)
+	runtest(2, 3, 400, 0)
+	yield(g.cs)
+	for i := 0; i < c.Pick(40, 400); i++ {
+		start("runtest")
+		per := -8
+		if r.Intn(4) == 0 {
+			per = -300
+		}
+		runtest(r.Intn(3), 1+r.Intn(4), per, g.kind())
+		yield(g.cs)
+	}
+
 	// ---- lines the model must refuse exactly as the harness does ----------------------------
 	for _, ops := range [][]string{
 		{"c19 values nosuch"}, {"c19 mon nosuch"}, {"c19 stats s hosts=1 -", "c19 stats s hosts=1 -"},
@@ -1818,6 +1888,8 @@ func c19genAll(c *h.Ctx, yield func(*h.Case)) {
 		{"c19 open 2"}, {"c19 close"}, {"c19 frobnicate"}, {"c19 stats s hosts=1 -", "c19 mon s", "c19 send 0 m 3ff0000000000000 1"},
 		{"c19 get 0"}, {"c19 stats s hosts -"}, {"c19 avg a nosuch"}, {"c19 stats s hosts=1 -", "c19 mon s", "c19 finish m 0 3ff0000000000000"},
 		{"c19 stats s hosts=1 -", "c19 mon s", "c19 tmeasure round 1 1 fresh"}, {"c19 stats s hosts=1 -", "c19 mon s", "c19 cmeasure net 1 1.2.3.4"},
+		{"c19 runtest g 0 2 1 - -"}, {"c19 runtest g 4 2 1 zz -"}, {"c19 runtest g 4 2 1 - m/zz/1"}, {"c19 runtest g 4 2 1 " + c19hexRules([]string{"1-5"}) + " -"},
+		{"c19 stats g hosts=1 -", "c19 runtest g 4 2 1 - -"}, {"c19 runtest g 4 2 x - -"},
 	} {
 		start("refused")
 		g.cs.Ops = ops
